@@ -7,10 +7,11 @@
              payload, i.e. the datum minus its 4-byte varlena header) *)
 Require Import PG.Base.Bytes PG.Base.GoSlice PG.Base.Value.
 Require Import PG.C07.Model PG.C07.Spec PG.C07.ProofsTables PG.C07.ProofsLoop PG.C07.ProofsRoundtrip PG.C07.ProofsSafety.
+Require Import PG.C07.ProofsTail PG.C07.Historic PG.C07.ProofsHistoric.
 
 (* ---- tables ------------------------------------------------------------------------------------
    arrayElemTypes / fixedLengths / elemAligns agree with pg_type on every array type the tool claims
-   (51 rows: element type, typlen, typalign), and every entry of arrayElemTypes other than 1006
+   (50 rows: element type, typlen, typalign), and every entry of arrayElemTypes other than 1006
    (_int2vector decoded as int2[], observation O6, not claimed) is such a row. *)
 Theorem C07_tables :
   (forall r, In r pg_array_types ->
@@ -23,7 +24,7 @@ Proof. exact tables_agree. Qed.
 Print Assumptions C07_tables.
 
 (* ---- round trip ---------------------------------------------------------------------------------
-   For EVERY well-formed array value — any of the 51 element types (fixed 1/2/4/6/8/12/16/24/32/64
+   For EVERY well-formed array value — any of the 50 array types (fixed 1/2/4/6/8/12/16/24/32/64
    bytes with c/s/i/d alignment; varlena with i or d alignment), 0..6 dimensions of any lengths
    whose product is below 2^31 (no bound 2000), any int32 lower bounds, with or without a null
    bitmap, any set of NULL positions, varlena elements with 1-byte or 4-byte headers in any mix, the
@@ -101,3 +102,46 @@ Theorem C07_alloc_bound :
                      Z.of_nat (length l) <= 8 * len s).
 Proof. split; [exact alloc_request_bounded | exact DecodeType_array_bounded]. Qed.
 Print Assumptions C07_alloc_bound.
+
+(* ... and it never looks beyond len(raw): the result is the same whatever lies between len and cap
+   (Go checks a slice bound against cap, so an unguarded raw[a:b] would read the neighbour's bytes). *)
+Theorem C07_reads_within_len : forall (DecodeType : bytes -> Z -> res gval) v t1 t2 oid,
+  DecodeType_array DecodeType {| vis := v; tail := t1 |} oid =
+  DecodeType_array DecodeType {| vis := v; tail := t2 |} oid.
+Proof. exact DecodeType_array_tail. Qed.
+Print Assumptions C07_reads_within_len.
+
+(* ---- historic: the code before the fix: commits (model PG.C07.Historic, element decoder = identity) ----
+   D23 dataoffset used relative to the stripped payload ('{1,NULL,3}'::int4[]); D24 the empty array
+   returned as a nil slice; D25 stride = size for macaddr[], name[] read as varlena, 8-byte aligned
+   varlena elements (tsrange[]) aligned to 4 relative to the payload. *)
+Theorem C07_dataoffset_refuted : exists a, wf_arr a /\
+  DecodeType_array_old dt_id (exact (enc_array a)) (t_arr (a_ty a)) <> expected dt_id a.
+Proof. exists w_nulls. exact dataoffset_refuted. Qed.
+Print Assumptions C07_dataoffset_refuted.
+
+Theorem C07_empty_refuted : exists a, wf_arr a /\ a_dims a = [] /\
+  DecodeType_array_old dt_id (exact (enc_array a)) (t_arr (a_ty a)) <> expected dt_id a.
+Proof. exists w_empty. destruct empty_refuted as [H1 H2]. split; [exact H1|split; [reflexivity|exact H2]]. Qed.
+Print Assumptions C07_empty_refuted.
+
+Theorem C07_stride_refuted :
+  (exists a, wf_arr a /\ t_arr (a_ty a) = 1040 /\
+     DecodeType_array_old dt_id (exact (enc_array a)) (t_arr (a_ty a)) <> expected dt_id a) /\
+  (exists a, wf_arr a /\ t_arr (a_ty a) = 1003 /\
+     DecodeType_array_old dt_id (exact (enc_array a)) (t_arr (a_ty a)) <> expected dt_id a) /\
+  (exists a, wf_arr a /\ t_arr (a_ty a) = 3909 /\
+     DecodeType_array_old dt_id (exact (enc_array a)) (t_arr (a_ty a)) <> expected dt_id a).
+Proof.
+  destruct stride_refuted as ([A1 A2] & [B1 B2] & [C1 C2]).
+  split; [exists w_macaddr|split; [exists w_name|exists w_tsrange]]; (split; [assumption|split; [reflexivity|assumption]]).
+Qed.
+Print Assumptions C07_stride_refuted.
+
+(* D32: byte strings on which the old code panicked (header byte 0x01; bitmap slice beyond the value;
+   six dimensions announced in 20 bytes; a 4-byte header announcing 2 bytes) *)
+Theorem C07_old_panics : exists s1 s2 s3 s4,
+  DecodeType_array_old dt_id (exact s1) 1009 = Panic /\ DecodeType_array_old dt_id (exact s2) 1007 = Panic /\
+  DecodeType_array_old dt_id (exact s3) 1007 = Panic /\ DecodeType_array_old dt_id (exact s4) 1009 = Panic.
+Proof. exists p_short0, p_bitmap, p_ndim6, p_long2. exact old_panics. Qed.
+Print Assumptions C07_old_panics.
